@@ -149,8 +149,11 @@ def lin_network(draw):
         clusters.append({"k": "vectors", "obs": obs, "cov": draw(cov_for([5.0] * (3 * len(obs))))})
     order = draw(st.permutations(list(range(len(clusters)))))
     clusters = [clusters[i] for i in order]
-    return {"axes": axes, "angles": angles, "deg": deg, "params": {"sigma-apr": 10, "tol-abs": 1e9},
-            "description": "lin", "points": P, "clusters": clusters}
+    net = {"axes": axes, "angles": angles, "deg": deg, "params": {"sigma-apr": 10, "tol-abs": 1e9},
+           "description": "lin", "points": P, "clusters": clusters, "dims": "3d"}
+    if stretch_heights(draw, net) != 1:
+        net["steep"] = True
+    return net
 
 
 # --------------------------------------------------------------------------
